@@ -79,7 +79,7 @@ def parse_ann(node) -> Ty | None:
         if base.name == "Union":
             elts = node.slice.elts if isinstance(node.slice, ast.Tuple) else [node.slice]
             return _union([parse_ann(e) for e in elts])
-        if base.name in ("Annotated", "Final", "ClassVar"):
+        if base.name in ("Annotated", "Final", "ClassVar", "Mapped", "Required", "NotRequired", "ReadOnly"):
             elts = node.slice.elts if isinstance(node.slice, ast.Tuple) else [node.slice]
             return parse_ann(elts[0])
         if base.name == "str":  # Literal[...] mapped to str
@@ -309,8 +309,8 @@ class Repo:
             self._index_class(mi, node)
         elif isinstance(node, ast.Assign):
             for t in node.targets:
-                if isinstance(t, ast.Name):
-                    mi.constants[t.id] = node.value
+                if isinstance(t, ast.Name) and not (isinstance(node.value, ast.Name) and node.value.id == t.id):
+                    mi.constants[t.id] = node.value      # (`X = X` re-exports an imported name: keep the import)
         elif isinstance(node, ast.AnnAssign):
             if isinstance(node.target, ast.Name) and node.value is not None:
                 mi.constants[node.target.id] = node.value
